@@ -402,11 +402,15 @@ theorem takeChunks_flatten {α : Type} : ∀ (ss : List Nat) (l : List α), (tak
       simp only [List.isEmpty_cons, Bool.false_eq_true, if_false, List.flatten_cons, ih,
         List.take_append_drop]
 
-theorem unequalLoop_done (sizes : List Int) (as : Int) (l : List ((Int × π) × Nat)) (j base : Nat)
-    (h : j = sizes.length) : unequalLoop sizes as l j base = [] := by
+theorem unequalLoop_done (sizes : List Int) (as : Int) (l : Fib Int π) (off j base : Nat)
+    (hoff : 0 < off) (h : j = sizes.length) : unequalLoop sizes as (l.zipIdx off) j base = [] := by
   cases l with
   | nil => rfl
-  | cons a t => unfold unequalLoop; simp [h]
+  | cons a t =>
+    rw [List.zipIdx_cons]
+    unfold unequalLoop
+    have : ¬ off = 0 := by omega
+    simp [h, this]
 
 theorem unequalLoop_chunks (sizes : List Int) (hpos : ∀ s ∈ sizes, 1 ≤ s) (as : Int) :
     ∀ (l : Fib Int π) (off j base : Nat), j < sizes.length → 0 < off → base < off →
@@ -426,13 +430,13 @@ theorem unequalLoop_chunks (sizes : List Int) (hpos : ∀ s ∈ sizes, 1 ≤ s) 
     unfold unequalLoop
     have h1 : ¬ j = sizes.length := by omega
     have h2 : ¬ off = 0 := by omega
-    simp only [h1, if_false, h2]
+    simp only [h2, if_false, h1]
     by_cases h3 : (off : Int) - (base : Int) = sizes.getD j 0
     · simp only [h3, if_true]
       have hd : base + (sizes.getD j 0).toNat - off = 0 := by omega
       rw [hd, List.drop_zero]
       by_cases hlast : j + 1 = sizes.length
-      · rw [unequalLoop_done sizes as _ (j + 1) off hlast]
+      · rw [unequalLoop_done sizes as t (off + 1) (j + 1) off (by omega) hlast]
         have : sizes.drop (j + 1) = [] := List.drop_eq_nil_of_le (by omega)
         rw [this]
         simp [takeChunks, headCoord]
@@ -455,32 +459,34 @@ theorem unequalLoop_chunks (sizes : List Int) (hpos : ∀ s ∈ sizes, 1 ≤ s) 
       have : base + (sizes.getD j 0).toNat - (off + 1) = m := by omega
       rw [this]
 
-/-- `splitUnEqual`'s boundaries are those of the chunking by the sizes (a non-empty size list) -/
-theorem unequalBounds_chunks (sizes : List Int) (hne : sizes ≠ []) (hpos : ∀ s ∈ sizes, 1 ≤ s)
+/-- `splitUnEqual`'s boundaries are those of the chunking by the sizes (the empty size list included:
+    one chunk with everything) -/
+theorem unequalBounds_chunks (sizes : List Int) (hpos : ∀ s ∈ sizes, 1 ≤ s)
     (as : Int) (act : Fib Int π) :
     unequalBounds sizes as act = boundsOf as (takeChunks (sizes.map Int.toNat) act) := by
   unfold unequalBounds
   cases act with
   | nil => simp [unequalLoop, takeChunks_nil, boundsOf]
   | cons x t =>
-    obtain ⟨s0, ss, rfl⟩ : ∃ s0 ss, sizes = s0 :: ss := by
-      cases sizes with
-      | nil => exact absurd rfl hne
-      | cons a b => exact ⟨a, b, rfl⟩
-    have hs0 : 1 ≤ s0 := hpos s0 (List.mem_cons_self ..)
     rw [List.zipIdx_cons]
     unfold unequalLoop
-    simp only [List.length_cons, Nat.zero_ne_add_one, if_false, if_true]
-    rw [unequalLoop_chunks (s0 :: ss) hpos as t (0 + 1) 0 0 (by simp) (by omega) (by omega)
-      (by simp; omega)]
-    obtain ⟨m, hm⟩ : ∃ m, s0.toNat = m + 1 := ⟨s0.toNat - 1, by omega⟩
-    simp only [List.map_cons]
-    rw [takeChunks_cons_cons]
-    simp only [boundsOf]
-    rw [hm, List.drop_succ_cons]
-    have : 0 + ((s0 :: ss).getD 0 0).toNat - (0 + 1) = m := by simp; omega
-    rw [this]
-    simp
+    simp only [if_true]
+    cases sizes with
+    | nil =>
+      rw [unequalLoop_done [] as t (0 + 1) 0 0 (by omega) rfl]
+      simp [takeChunks, boundsOf]
+    | cons s0 ss =>
+      have hs0 : 1 ≤ s0 := hpos s0 (List.mem_cons_self ..)
+      rw [unequalLoop_chunks (s0 :: ss) hpos as t (0 + 1) 0 0 (by simp) (by omega) (by omega)
+        (by simp; omega)]
+      obtain ⟨m, hm⟩ : ∃ m, s0.toNat = m + 1 := ⟨s0.toNat - 1, by omega⟩
+      simp only [List.map_cons]
+      rw [takeChunks_cons_cons]
+      simp only [boundsOf]
+      rw [hm, List.drop_succ_cons]
+      have : 0 + ((s0 :: ss).getD 0 0).toNat - (0 + 1) = m := by simp; omega
+      rw [this]
+      simp
 
 end unequal
 
